@@ -123,6 +123,12 @@ def run(ctx: Ctx) -> int:
     aps = [c for c in calls_in(po) if call_leaf(c) == "_apply_actions"]
     ok = len(aps) >= 2 and any("cfg_obj" in ast.unparse(c.args[0]) for c in aps if c.args)
     ctx.oblige("C10.b", ok, aps[0] if aps else po, "parse_object runs the same per-key checker over the given object (a parse result is re-checked, not trusted)" if ok else "parse_object no longer applies actions to the given object", fn=po)
+    from .util import guard_atoms
+
+    for c in aps:
+        atoms = guard_atoms(c, stop=po)
+        ok = not atoms
+        ctx.oblige("C10.b", ok, c, "this normalisation pass of parse_object is unconditional" if ok else f"this normalisation pass of parse_object only runs under {[ast.unparse(t) for t, _ in atoms]}: otherwise defaults reach the result un-normalised ([3, 3] for a Tuple, '0' for an int key) and parse_object(result) converts them - the result is not a fixed point", fn=po)
 
     # text that loads to text stays as it was written: replacing "'1.10'" by "1.10" makes the next pass read 1.1
     pvc = ctx.func("_util:parse_value_or_config")
@@ -157,6 +163,11 @@ def run(ctx: Ctx) -> int:
             for s in walk_local(fn)
             if isinstance(s, ast.Assign) and len(s.targets) == 1 and isinstance(s.targets[0], ast.Name) and any(call_leaf(c) == "pop" and c.args and const_str(c.args[0]) == "__path__" for c in calls_in(s.value))
         ]
+        bare = [e for e in walk_local(fn) if isinstance(e, ast.Expr) and isinstance(e.value, ast.Call) and call_leaf(e.value) == "pop" and e.value.args and const_str(e.value.args[0]) == "__path__"]
+        bare += [d for d in walk_local(fn) if isinstance(d, ast.Delete) and any(isinstance(t, ast.Subscript) and const_str(t.slice) == "__path__" for t in d.targets)]
+        for e in bare:
+            n_pairs += 1
+            ctx.oblige("C10.c", False, e, 'the "__path__" metadata is removed from the value and not remembered: it cannot be put back, so re-parsing a result that carries the metadata returns a different configuration', fn=fn)
         for s in pops:
             n_pairs += 1
             pn = s.targets[0].id
